@@ -268,6 +268,16 @@ Definition copying (m : meth) : bool :=
   | _ => false
   end.
 
+(* methods during which a user callback that looks at the receiver must see it exactly as it was before the call (the
+   standard-library loop on an ordinary slice reads the slice and writes elsewhere, or nowhere): all callback-taking methods
+   except the in-place ones (CompactFunc and the in-place sorts, whose callbacks see the slice being rearranged) *)
+Definition sees_unchanged (m : meth) : bool :=
+  match m with
+  | MEqualFunc _ _ | MCompareFunc _ _ | MIndexFunc _ | MForEach | MIsSortedFunc _ | MBinarySearchFunc _ _
+  | MFilter _ | MFilterTo _ _ | MSortFuncTo _ _ | MSortComparatorTo _ _ | MSortStableFuncTo _ _ => true
+  | _ => false
+  end.
+
 (* methods that rebind the receiver to storage of their own: nothing that was handed out earlier (the slice the wrapper
    was built from, a ToMetaSlice result) may be touched by any LATER method (Clear: x.e = []E{}; Filter: x.e = res) *)
 Definition detaches (m : meth) : bool := match m with MClear | MFilter _ => true | _ => false end.
